@@ -168,21 +168,20 @@ theorem alloc_covers (pp : List (List String)) (fields : List Field) (written : 
   refine (mem_allocPaths pp fields written _).mpr ⟨hpp, f, hf, hw, ?_, ?_⟩
   · simp [Field.isEmbedded]; omega
   · simp only [coveredBy, Bool.or_eq_true, Bool.and_eq_true, decide_eq_true_eq]
-    left; right
+    right
     constructor
     · exact List.isPrefixOf_iff_prefix.mpr (List.take_prefix i f.path)
     · simp; omega
 
-/-- the allocation list is closed (given that `CoveredBy` only fires for genuine prefixes) and sorted: a chain -/
-theorem alloc_chain (pp : List (List String)) (fields : List Field) (written : Field → Bool)
-    (hsf : suffixFree pp fields = true) : chainOk pp [] (allocPaths pp fields written) = true := by
+/-- the allocation list is closed (`CoveredBy` only fires for the path itself and its proper prefixes) and sorted: a chain -/
+theorem alloc_chain (pp : List (List String)) (fields : List Field) (written : Field → Bool) :
+    chainOk pp [] (allocPaths pp fields written) = true := by
   apply chain_of_sorted_closed
   · exact sorted_isort pathCodes _
   · intro g hg h hh
     obtain ⟨hgpp, f, hf, hw, he, hcov⟩ := (mem_allocPaths pp fields written g).mp hg
-    simp only [suffixFree, List.all_eq_true] at hsf
-    have := hsf f hf g hgpp
-    simp only [hcov, Bool.not_true, Bool.false_or, Bool.or_eq_true, beq_iff_eq, Bool.and_eq_true, decide_eq_true_eq] at this
+    have := hcov
+    simp only [coveredBy, Bool.or_eq_true, beq_iff_eq, Bool.and_eq_true, decide_eq_true_eq] at this
     -- g is the field's path or a proper prefix of it: in both cases h is crossed on the way to the field
     have hhf : h ∈ hops pp f.path := by
       rcases this with e | ⟨hpre, hlen⟩
@@ -220,10 +219,10 @@ theorem stmtTablesOk_of (rs ws : SideSem) (fields : List Field) (written : Field
     and the generator's sort — for every input -/
 theorem tablesOk_of_WF09 (inp : Input) (h : WF09 inp = true) : TablesOk inp = true := by
   simp only [WF09, Bool.and_eq_true, List.all_eq_true] at h
-  obtain ⟨⟨⟨⟨⟨_, _⟩, hsd⟩, hss⟩, hto⟩, hfrom⟩ := h
+  obtain ⟨⟨⟨_, _⟩, hto⟩, hfrom⟩ := h
   obtain ⟨_, _, hinv⟩ := plan_inv inp
   simp only [TablesOk, Bool.and_eq_true, List.all_eq_true]
-  refine ⟨⟨⟨alloc_chain _ _ _ hsd, alloc_chain _ _ _ hss⟩, ?_⟩, ?_⟩
+  refine ⟨⟨⟨alloc_chain _ _ _, alloc_chain _ _ _⟩, ?_⟩, ?_⟩
   · intro c hc
     have hp := (hinv.toPair c (stmts_sub hc).1).1
     have hm := (mem_pairs _ _ _ _ _).mp hp
